@@ -288,6 +288,34 @@ def n_cases(tier, q, t):
            ["futures oneshot/mpsc semantics as written in Model/Client.v", "eager scheduling (DESIGN 4.1)"])
 def c05(tier, rng):
     out = []
+    # identifiers of 256 and beyond (both identifier bytes in use) through complete exchanges of every kind
+    for first in (254, 255, 256, 300, 65533):
+        st = S()
+        st.ev("spin %d 5000 pub1 1" % first)
+        st.pid_ctr = first + 1
+        ops5 = [st.pub(q=2, payload=b"A"), st.pub(q=1, payload=b"B"), st.sub(b"s"), st.unsub(b"u"), st.pub(q=2, payload=b"C")]
+        for i in ops5:
+            st.poll(i)
+        pa, pb, ps_, pu, pc = [st.ops[i]["pid"] for i in ops5]
+        st.deliver(M.pubrec(pc)), st.deliver(M.pubrec(pa)), st.poll(ops5[0]), st.poll(ops5[4])
+        st.deliver(M.pubcomp(pc, 146, [(31, b"for C")], "long")), st.deliver(M.pubcomp(pa))
+        st.deliver(M.unsuback(pu)), st.deliver(M.suback(ps_)), st.deliver(M.puback(pb, 16))
+        for i in ops5:
+            st.poll(i)
+        out.append(case("two-byte-ids-%d" % first, st.script(), ["two-byte-ids"]))
+    # pings answered in issue order also when an earlier ping's future was dropped and other requests came in between
+    for between in ("pub0", "ping", "pub1"):
+        st = S()
+        p1 = st.ping()
+        st.poll(p1), st.ev("dropop %d" % p1)
+        x = st.pub(q=0) if between == "pub0" else (st.ping() if between == "ping" else st.pub(q=1))
+        st.poll(x)
+        p2 = st.ping()
+        st.poll(p2)
+        st.deliver(M.pingresp()), st.poll(p2), st.poll(x)
+        st.deliver(M.pingresp()), st.poll(p2), st.poll(x)
+        st.deliver(M.pingresp()), st.poll(p2), st.poll(x)
+        out.append(case("dropped-ping-then-%s" % between, st.script(), ["dropped-ping"]))
     # every permutation of three acknowledgements for three outstanding operations
     import itertools
     for n, perm in enumerate(itertools.permutations(range(3))):
@@ -351,6 +379,18 @@ def c05(tier, rng):
            "then random walks restricted to publishes with interleaved other operations.")
 def c06(tier, rng):
     out = []
+    # topics and strings outside ASCII (length prefixes count bytes, not characters), through the complete handshakes
+    for topic in ("m\u00e9t\u00e9o/temp\u00e9rature", "\u6e29\u5ea6/\u5ba4\u5185", "a/\U0001f321/b"):
+        tb = topic.encode("utf-8")
+        for q in (0, 1, 2):
+            st = S()
+            i1 = st.pub(q=q, topic=tb, payload=b"21.5", extra="rt=%s ct=%s" % (hx(tb + b"/r"), hx("text/\u00e9".encode("utf-8"))))
+            st.poll(i1), st.poll(i1)
+            if q == 1:
+                st.deliver(M.puback(1)), st.poll(i1)
+            if q == 2:
+                st.deliver(M.pubrec(1)), st.poll(i1), st.deliver(M.pubcomp(1)), st.poll(i1)
+            out.append(case("utf8-topic-%d-q%d" % (len(tb), q), st.script(), ["utf8"]))
     for r in PUBACK_R:
         for delay in (0, 1):
             s = S()
@@ -490,6 +530,19 @@ def c07(tier, rng):
         s.ev("pollstream %d" % a)
     s.deliver(M.publish(b"a", b"fresh", 1, 9, ps=[(11, 1)])), s.ev("pollstream %d" % a), s.ev("pollstream %d" % a)
     out.append(case("late-consumer", s.script(), ["backlog"]))
+    # the acknowledgement of an inbound QoS>0 message cannot be written (write fault exactly there): the message has
+    # reached its stream all the same, and so have the ones before it
+    for q in (1, 2):
+        for budget in (0, 1, 3):
+            s = S()
+            a = s.sub(b"a")
+            s.poll(a), s.deliver(M.suback(1)), s.poll(a), s.ev("tostream %d" % a)
+            s.deliver(M.publish(b"a", b"first", 0, None, ps=[(11, 1)]))
+            s.ev("werr %d" % budget)
+            s.deliver(M.publish(b"a", b"second", q, 9, ps=[(11, 1)]))
+            for _ in range(4):
+                s.ev("pollstream %d" % a)
+            out.append(case("ack-write-fails-q%d-%d" % (q, budget), s.script(), ["ackfault"]))
     for k in range(n_cases(tier, 120, 2500)):
         out.append(walk(rng, rng.choice([30, 60]) if tier == "quick" else rng.choice([60, 250]),
                         {"kinds": ["sub", "sub", "unsub", "pub1", "ping"], "streams": True, "drops": k % 2 == 0},
@@ -539,6 +592,26 @@ def c08(tier, rng):
             s.deliver(M.pubrel(pid, r, ps, form))
             s.deliver(M.publish(b"t", b"", 1, 9, dup=1)), s.deliver(M.publish(b"t", b"q0"))
             out.append(case("pubrel-%d-%d-%s" % (pid, r, form), s.script(), ["pubrel-forms"]))
+    # a PUBLISH matching several subscriptions carries several Subscription Identifiers: acknowledged like any other
+    for q in (0, 1, 2):
+        s = S()
+        a, b = s.sub(b"a/#"), s.sub(b"a/b")
+        s.poll(a), s.poll(b), s.deliver(M.suback(1)), s.deliver(M.suback(2)), s.poll(a), s.poll(b)
+        s.deliver(M.publish(b"a/b", b"both", q, 31 if q else None, ps=[(11, 1), (11, 2)]))
+        s.deliver(M.publish(b"a/b", b"three", q, 32 if q else None, ps=[(11, 2), (38, (b"k", b"v")), (11, 1), (11, 9)]))
+        if q == 2:
+            s.deliver(M.pubrel(31)), s.deliver(M.pubrel(32))
+        s.deliver(M.publish(b"a/c", b"one", 1, 33, ps=[(11, 1)]))
+        out.append(case("several-subids-q%d" % q, s.script(), ["several-subids"]))
+    # an acknowledgement that could not be written (connection 1 breaks exactly there) leaves nothing behind: on the next
+    # connection of the same Context every inbound packet is answered with exactly its own acknowledgement
+    for q, budget in ((1, 0), (2, 0), (1, 2), (2, 3)):
+        s = S()
+        s.ev("werr %d" % budget)
+        s.deliver(M.publish(b"t", b"x", q, 0x1234))
+        s.ev("reconnect"), s.ev("connect"), s.deliver(M.connack()), s.ev("run")
+        s.deliver(M.publish(b"t", b"y", 1, 9)), s.deliver(M.publish(b"t", b"z", 2, 10)), s.deliver(M.pubrel(10))
+        out.append(case("ack-fails-then-reconnect-q%d-%d" % (q, budget), s.script(), ["reconnect", "ackfault"]))
     for k in range(n_cases(tier, 60, 1500)):
         out.append(walk(rng, 40 if tier == "quick" else 150,
                         {"kinds": ["sub", "pub1", "ping"], "streams": True, "inbound": True, "drops": True,
@@ -605,6 +678,33 @@ def c09(tier, rng):
         out.append(walk(rng, 50 if tier == "quick" else 200,
                         {"kinds": ["sub", "ping"], "streams": True, "inbound": True, "redeliver": True},
                         "walk%d" % k))
+    # several exchanges unreleased at once, released out of order, then re-deliveries of the ones still unreleased
+    for order in ((1,), (2,), (1, 3), (3, 1), (2, 1)):
+        st = S()
+        a = st.sub(b"a")
+        st.poll(a), st.deliver(M.suback(1)), st.poll(a), st.ev("tostream %d" % a)
+        ids = [1, 2, 3, 4]
+        for i in ids:
+            st.deliver(M.publish(b"a", b"m%d" % i, 2, i, ps=[(11, 1)]))
+        for r in order:
+            st.deliver(M.pubrel(r))
+        for i in ids:
+            st.deliver(M.publish(b"a", b"m%d" % i, 2, i, dup=1, ps=[(11, 1)]))     # new for the released ones, re-delivery otherwise
+        for _ in range(len(ids) * 2 + 1):
+            st.ev("pollstream %d" % a)
+        out.append(case("outoforder-%s" % "".join(map(str, order)), st.script(), ["outoforder"]))
+    # the server's Receive Maximum (a limit on what the CLIENT may send) says nothing about inbound exchanges
+    for rm in (1, 2):
+        st = S(connack_props=[(33, rm)])
+        a = st.sub(b"a")
+        st.poll(a), st.deliver(M.suback(1)), st.poll(a), st.ev("tostream %d" % a)
+        for i in (11, 12, 13, 14):
+            st.deliver(M.publish(b"a", b"m%d" % i, 2, i, ps=[(11, 1)]))
+        for i in (11, 12, 13, 14):
+            st.deliver(M.publish(b"a", b"m%d" % i, 2, i, dup=1, ps=[(11, 1)]))
+        for _ in range(9):
+            st.ev("pollstream %d" % a)
+        out.append(case("inbound-beyond-R%d" % rm, st.script(), ["rm-inbound"]))
     return out
 
 
@@ -774,6 +874,15 @@ def c11(tier, rng):
             s.ev("spin %d %d %s %d" % (rng.randint(1, 40), 1000 * (j + 1), rng.choice(["pub1", "pub2", "sub", "unsub"]),
                                       rng.choice([0, 1])))
         out.append(case("mixed%d" % k, s.script(), ["mixed"]))
+    # implementation only (the model allocates in one atomic step, as the AtomicU16/AtomicU32 it abstracts): operations issued
+    # concurrently from clones of the handle on 8 OS threads while this thread drives run(); and more than 2^16 subscribe() calls
+    for rep in range(3 if tier == "quick" else 10):
+        c = case("threads-%d" % rep, S().script() + " ; threads 8 %d" % (2000 + 37 * rep), ["threads"], release=True)
+        c["model"] = False
+        out.append(c)
+    c = case("subscribes-65600", S().script() + " ; spinsub 65600", ["subid-wrap16"], release=False)
+    c["model"] = False
+    out.append(c)
     return out
 
 
@@ -858,6 +967,18 @@ def c12_extra():
         for i in ops:
             s.poll(i)
         out.append(case("own-limit-%d" % own, s.script(), ["own-limit"]))
+    for R in (1, 2):
+        for q in (1, 2):
+            s = S(connack_props=[(33, R), (39, 40)])
+            fill = [s.pub(q=1, payload=b"f") for _ in range(R)]
+            for i in fill:
+                s.poll(i)
+            big = s.pub(q=q, payload=b"B" * 60)
+            s.poll(big), s.poll(big)
+            s.deliver(M.puback(s.ops[fill[0]]["pid"])), s.poll(fill[0])
+            nxt = s.pub(q=1, payload=b"n")
+            s.poll(nxt), s.poll(nxt)
+            out.append(case("oversized-at-quota-R%d-q%d" % (R, q), s.script(), ["oversized", "quota"]))
     return out
 
 
@@ -887,6 +1008,31 @@ def session_states():
            "outstanding, streams open, mid-QoS 2}; every CONNACK reason, AUTH, EOF for connect().")
 def c13(tier, rng):
     out = []
+    for via_clone in (False, True):
+        st = S(connack_props=[(39, 3)])
+        if via_clone:
+            st.ev("clone 0 1")
+        d = st.disc("r=4 rs=%s" % hx(b"too long for three bytes"), handle=1 if via_clone else 0)
+        st.poll(d), st.poll(d)
+        if via_clone:
+            st.ev("drophandle 1")
+        g = st.ping()
+        st.poll(g), st.deliver(M.pingresp()), st.poll(g)
+        out.append(case("nocause-refused-disconnect%s" % ("-clone" if via_clone else ""), st.script(), ["nocause", "refused-disc"]))
+    for via_clone in (False, True):
+        st = S()
+        if via_clone:
+            st.ev("clone 0 1")
+        d = st.disc(handle=1 if via_clone else 0)
+        st.poll(d), st.poll(d)
+        if via_clone:
+            st.ev("drophandle 1")
+        st.ev("reconnect"), st.ev("connect"), st.deliver(M.connack()), st.ev("run")
+        g = st.ping()
+        st.poll(g), st.deliver(M.pingresp()), st.poll(g)
+        q = st.pub(q=1)
+        st.poll(q), st.deliver(M.puback(st.ops[q]["pid"])), st.poll(q)
+        out.append(case("again-after-disconnect%s" % ("-clone" if via_clone else ""), st.script(), ["reconnect", "nocause2"]))
     for r in CONNACK_R:
         ps = [(31, b"reason"), (28, b"other.example"), (38, (b"k", b"v"))] if r else [(33, 10), (18, b"cid")]
         out.append(case("connack-r%d" % r, "connect cid=63 ; deliver %s ; run ; eof" % hx(M.connack(r == 0 and 1 or 0, r, ps)),
@@ -965,6 +1111,24 @@ def c13(tier, rng):
            "then every pending future and stream is polled; operations started afterwards; random walks.")
 def c14(tier, rng):
     out = []
+    for n in (65534, 65535, 65536):
+        st = S()
+        st.ev("spin %d 5000 pub1 1" % n)
+        st.ev("dropctx")
+        late = [st.pub(q=1), st.pub(q=2), st.sub(b"x"), st.unsub(b"y"), st.ping(), st.pub(q=0), st.disc()]
+        for i in late:
+            st.poll(i)
+        out.append(case("wrapped-then-gone-%d" % n, st.script(), ["wrap", "late"], release=False))
+    for backlog in (10, 64, 65, 200):
+        st = S()
+        a = st.sub(b"a")
+        st.poll(a), st.deliver(M.suback(1)), st.poll(a), st.ev("tostream %d" % a)
+        for k in range(backlog):
+            st.deliver(M.publish(b"a", b"n%d" % k, 0, None, ps=[(11, 1)]))
+        st.ev("eof"), st.ev("dropctx"), st.ev("drophandle 0")
+        for k in range(backlog + 2):
+            st.ev("pollstream %d" % a)
+        out.append(case("backlog-then-gone-%d" % backlog, st.script(), ["backlog"]))
     base = []
 
     def build(upto):
@@ -1047,6 +1211,22 @@ def k2_case():
            "acknowledgement delivered afterwards; dropped streams; then random walks with drops.")
 def c15(tier, rng):
     out = [k2_case()]
+    for kind in ("pub1", "pub2", "unsub"):
+        st = S()
+        a = st.pub(q=1) if kind == "pub1" else (st.pub(q=2) if kind == "pub2" else st.unsub(b"u"))
+        st.poll(a)
+        if kind == "pub2":
+            st.deliver(M.pubrec(1)), st.poll(a)
+        st.ev("dropop %d" % a)
+        st.deliver({"pub1": M.puback(1), "pub2": M.pubcomp(1), "unsub": M.unsuback(1)}[kind])
+        st.ev("spin 65534 5000 pub1 1")
+        st.pid_ctr = 1
+        b = st.pub(q=1) if kind == "pub1" else (st.pub(q=2) if kind == "pub2" else st.unsub(b"u"))
+        st.poll(b)
+        if kind == "pub2":
+            st.deliver(M.pubrec(1)), st.poll(b)
+        st.deliver({"pub1": M.puback(1), "pub2": M.pubcomp(1), "unsub": M.unsuback(1)}[kind]), st.poll(b)
+        out.append(case("cancel-then-wrap-%s" % kind, st.script(), ["wrap", kind], release=False))
     kinds = ["pub0", "pub1", "pub2", "sub", "unsub", "ping"]
     n = 0
     for kind, point, between in [(k_, p_, b_) for k_ in kinds for p_ in ("unpolled", "queued", "awaiting", "phase2")
@@ -1136,6 +1316,19 @@ def c15(tier, rng):
            "quiescence a sweep must change nothing.")
 def c16(tier, rng):
     out = []
+    for L, piece in ((209, 1), (209, 3), (209, 6), (2000, 7), (700, 2)):
+        st = S()
+        a = st.sub(b"a")
+        st.poll(a), st.deliver(M.suback(1)), st.poll(a), st.ev("tostream %d" % a)
+        pg = st.ping()
+        st.poll(pg)
+        pk = M.publish(b"a", bytes((i * 5) % 251 for i in range(L)), 1, 9, ps=[(11, 1)]) + M.pingresp()
+        st.ev("hold")
+        for k in range(0, len(pk), piece):
+            st.deliver(pk[k:k + piece])
+        st.ev("release")
+        st.ev("pollstream %d" % a), st.poll(pg), st.ev("sweep")
+        out.append(case("manyreads-%d-%d" % (L, piece), st.script(), ["manyreads"]))
     # long inbound packets arriving one byte per transport event: only the wakeups of the transport drive the client
     for L in (130, 200, 700, 1300):
         st = S()
@@ -1291,4 +1484,39 @@ def c17(tier, rng):
         for i in (a, b, c3):
             s.poll(i)
         out.append(case("ack-between-resumes-%d" % variant, s.script(), ["twice", "acked-between"]))
+    # an acknowledged publish whose future had been dropped (other requests in between) is not re-sent; the others are
+    for q in (1, 2):
+        for between in ("ping", "pub0", "pub1", "none"):
+            s = S(connect_opts="sei=1000")
+            a, b = s.pub(q=q, payload=b"A"), s.pub(q=1, payload=b"B")
+            s.poll(a), s.poll(b)
+            s.ev("dropop %d" % a)
+            if between != "none":
+                x = s.ping() if between == "ping" else s.pub(q=0 if between == "pub0" else 1, payload=b"X")
+                s.poll(x)
+            pa, pb = s.ops[a]["pid"], s.ops[b]["pid"]
+            if q == 1:
+                s.deliver(M.puback(pa))
+            else:
+                s.deliver(M.pubrec(pa, 145))                  # refused: the exchange is over
+            s.ev("markdisc 10"), resume(s, 1000)
+            s.poll(b)
+            s.deliver(M.puback(pb)), s.poll(b)
+            out.append(case("dropped-acked-q%d-%s" % (q, between), s.script(), ["dropped", "acked"]))
+    # re-connection through enhanced authentication (CONNECT, AUTH, authorize(), CONNACK): the interval in force is the
+    # one of THIS connection's CONNECT
+    for sei1, sei2, elapsed, label in ((3600, 3600, 1, "auth-both-live"), (3600, 0, 1, "plain-then-auth-zero"), (0, 3600, 1, "zero-then-auth-live"),
+                                       (3600, 5, 50, "auth-elapsed")):
+        for first_auth in (False, True):
+            s = S(connect_opts=("sei=%d" % sei1) if sei1 else "", via_auth=first_auth)
+            a, b = s.pub(q=1, payload=b"A"), s.pub(q=2, payload=b"B")
+            s.poll(a), s.poll(b), s.deliver(M.pubrec(s.ops[b]["pid"])), s.poll(b)
+            s.ev("markdisc %d" % elapsed), s.ev("reconnect")
+            s.ev(("connect am=6d ad=01 " + (("sei=%d" % sei2) if sei2 else "")).strip())
+            s.ev("deliver " + hx(M.auth(24, [(21, b"m"), (22, b"\x07")])))
+            s.ev("auth r=24 am=6d ad=02")
+            s.deliver(M.connack(1)), s.ev("run")
+            s.poll(a), s.poll(b)
+            s.deliver(M.puback(s.ops[a]["pid"])), s.deliver(M.pubcomp(s.ops[b]["pid"])), s.poll(a), s.poll(b)
+            out.append(case("%s%s" % (label, "-authfirst" if first_auth else ""), s.script(), ["via-auth", "expiry-change"]))
     return out
